@@ -336,6 +336,12 @@ def check(case, ctx):
                 if err is not None or {(a, b) for a, b, _ in got} != sim3:
                     ctx.fail('sequential-complete', sorted(sim3), err if err is not None else sorted(got),
                              call=['sequential_digest', s, r3])
+                for lo, hi in ((None, 1), (None, 2), (2, 2)):
+                    exp = {(a, b) for a, b in sim3 if (lo is None or b - a >= lo) and (hi is None or b - a <= hi)}
+                    got, err = _spanset(ctx, p.sequential_digest, s, cfgs3, lo, hi, 'span')
+                    if err is not None or {(a, b) for a, b, _ in got} != exp:
+                        ctx.fail('sequential-bounds', sorted(exp), err if err is not None else sorted(got),
+                                 call=['sequential_digest', s, r3, lo, hi])
         ctx.outcome = [s, rules, len(sim)]
 
 
